@@ -12,8 +12,13 @@ pub mod c08;
 pub mod c09;
 pub mod c10;
 pub mod c11;
+pub mod c12;
 pub mod c13;
+pub mod c14;
+pub mod c15;
+pub mod c16;
 pub mod c17;
+pub mod c19;
 
 pub struct PropSpec {
     pub id: &'static str,
@@ -41,7 +46,7 @@ impl PropSpec {
 }
 
 pub fn all() -> Vec<PropSpec> {
-    vec![c01::spec(), c02::spec(), c03::spec(), c04::spec(), c05::spec(), c06::spec(), c07::spec(), c08::spec(), c09::spec(), c10::spec(), c11::spec(), c13::spec(), c17::spec()]
+    vec![c01::spec(), c02::spec(), c03::spec(), c04::spec(), c05::spec(), c06::spec(), c07::spec(), c08::spec(), c09::spec(), c10::spec(), c11::spec(), c12::spec(), c13::spec(), c14::spec(), c15::spec(), c16::spec(), c17::spec(), c19::spec()]
 }
 
 pub fn find(id: &str) -> Option<PropSpec> {
